@@ -44,7 +44,7 @@ CHECKS = {
          "one fault per image; damage behind a valid CRC (not producible by a disk) is out of scope; mutations per database are capped (uniform subsample of the enumeration) in the quick tier", "deterministic simulation: structure-aware enumeration of stored-byte damage"),
  "C15": ("exploration", "in-family part only: the real writer over the real buffered file over the simulated file system appends seeded record sequences (lengths biased to 0, 1, block-size edges +-8, up to 1 MiB) in one or more sessions (log reuse appends at the current size); bytes on disk must equal an independent encoder's output; the real reader reads back fault-free (also under short reads/EINTR), under cuts at every byte of the tail, around every record boundary and block boundary (exactly the records wholly before the cut, no report), and under bit/byte/multi-byte/sector damage (nothing invented, records before the damage and in later intact blocks returned, every drop reported unless the image is a legal torn tail, and agreement with an independent decoder). The exhaustive length x offset sweep and the CRC alignment sweep are pure-input properties and are not claimed.", "7 C15",
          "a zero header followed only by zeros to the end of its block is treated as a legal (preallocated/zero-extended) tail: no report required there", "deterministic simulation: real writer/reader over the simulated file with torn tails and stored-byte damage, judged by an independent codec"),
- "C19": ("exploration", "seeded histories build arbitrary layouts (flushes, per-level manual compactions that rewrite old data into higher-numbered files, tombstones, several versions per key across files, a live log), then CURRENT and/or MANIFEST are removed, truncated or bit-damaged (or left intact); ldb_repair and ldb_open run on the simulated file system; the newest version per user key is computed from the surviving table and log files by independent decoders and compared with get of every key and with forward/backward scans; follow-up writes must take precedence, persist across a reopen, be logged with sequence numbers above every surviving one, and new files must be numbered above everything on disk. Custom comparators included.", "7 C19",
+ "C19": ("exploration", "seeded histories build arbitrary layouts (flushes, per-level manual compactions that rewrite old data into higher-numbered files, tombstones, several versions per key across files, a live log; in a third of the runs the database is not closed but killed with the worker part-way through a flush or compaction, leaving half-written and orphan tables), then CURRENT and/or MANIFEST are removed, truncated or bit-damaged (or left intact); ldb_repair and ldb_open run on the simulated file system; the newest version per user key is computed from the surviving table and log files by independent decoders and compared with get of every key and with forward/backward scans; follow-up writes must take precedence, persist across a reopen, be logged with sequence numbers above every surviving one, and new files must be numbered above everything on disk. Custom comparators included.", "7 C19",
          "one open known finding (get returns an older version after repair while the iterator is right) is listed in known_findings.json; any other deviation is a violation", "deterministic simulation: metadata-loss faults + repair judged by independent decoders"),
  "C20": ("exploration", "seeded lifecycle sequences on the simulated file system, whose fcntl model implements POSIX record-lock semantics (closing any descriptor of a file drops the process's locks) with a stub second process that probes the LOCK file: open / close / second in-process open / open with another comparator / error_if_exists / missing database, each followed by lock probes, model comparison and a fresh open; backup and copy between arbitrary operations and - in a multi-threaded flavour - at arbitrary scheduler instants while 1-3 writer threads and the compaction worker run (backup = openable database whose contents are a per-writer-prefix fold containing everything acknowledged before the call and nothing issued after it; source layout and contents unchanged; writes to the copy never reach the source); destroy with foreign files and subdirectories (byte-identical afterwards, own files gone); destroy/copy of an open database refused without harm.", "7 C20",
          "a second process exists only as a lock-probing stub; two lcdb instances on one directory are not run", "deterministic simulation: lifecycle sequences with POSIX lock model, concurrent backups under seeded schedules"),
